@@ -759,6 +759,45 @@ def hist(p):
     return dict(recs=recs, final=final)
 
 
+# ------------------------------------------------------------------------------------------ automatic numbering
+
+
+def auto(p):
+    """A to_* writer called with run_number=None (apply_run_number globs for the next free number)."""
+    import pyxel.outputs.utils as u
+
+    w, ext = p["writer"], p["ext"]
+    folder = _scratch("au")
+    prefix = "detector_image_array_"
+    pre = {}
+    for k, mid in enumerate(p["mids"]):
+        raw = f"NUMBERED {k} {mid}\n".encode() * 2
+        (folder / f"{prefix}{mid}.{ext}").write_bytes(raw)
+        pre[f"{prefix}{mid}.{ext}"] = raw
+    data = np.full((ROWS, COLS), 2.0)
+    if w in ("to_png", "to_jpg"):
+        data = np.full((ROWS, COLS), 2, dtype=np.uint8)
+    elif w == "to_csv":
+        import pandas as pd
+
+        data = pd.DataFrame({"a": [2.0, 2.0]})
+    try:
+        ret = getattr(u, w)(current_output_folder=folder, data=data, name="detector.image.array",
+                            with_auto_suffix=True, run_number=None)
+    except OSError as ex:           # refused (FileExistsError): no file was produced
+        now = {q.name: q.read_bytes() for q in folder.iterdir()}
+        return dict(new="!" + type(ex).__name__, intact=all(now.get(n) == raw for n, raw in pre.items()),
+                    created=len(set(now) - set(pre)))
+    except Exception as ex:  # noqa: BLE001
+        return dict(error=f"{type(ex).__name__}: {ex}"[:300])
+    name = Path(ret).name
+    if not (name.startswith(prefix) and name.endswith("." + ext)):
+        return dict(error=f"unexpected returned name {name}")
+    now = {q.name: q.read_bytes() for q in folder.iterdir()}
+    intact = all(now.get(n) == raw for n, raw in pre.items())
+    return dict(new=name[len(prefix):-len(ext) - 1], intact=intact, created=len(set(now) - set(pre)))
+
+
 def handle(p):
     kind = p["kind"]
     if kind == "dirs_seq":
@@ -773,4 +812,6 @@ def handle(p):
         return flow(p)
     if kind == "hist":
         return hist(p)
+    if kind == "auto":
+        return auto(p)
     raise ValueError(kind)
